@@ -119,17 +119,27 @@ class VonMisesWingbox(om.ExplicitComponent):
             # this is Torque / (2 * thickness_min * Area_enclosed)
             torsion_stress = G * J[ielem] / L * (r1x - r0x) / 2 / spar_thickness[ielem] / A_enc[ielem]
 
-            # this is moment * h / I
-            top_bending_stress = E / (L**2) * (6 * u0y + 2 * r0z * L - 6 * u1y + 4 * r1z * L) * htop[ielem]
+            # The bending moment is evaluated at the inboard end of the element (the end nearer
+            # the symmetry plane / wing centre), where it is largest for a cantilevered wing.
+            # That is node 1 on a left wing (nodes run tip to root) and node 0 on a right wing.
+            if abs(np.real(P1[1])) <= abs(np.real(P0[1])):
+                curv_z = 6 * u0y + 2 * r0z * L - 6 * u1y + 4 * r1z * L
+                curv_y = -6 * u0z + 2 * r0y * L + 6 * u1z + 4 * r1y * L
+            else:
+                curv_z = -6 * u0y - 4 * r0z * L + 6 * u1y - 2 * r1z * L
+                curv_y = 6 * u0z - 4 * r0y * L - 6 * u1z - 2 * r1y * L
 
             # this is moment * h / I
-            bottom_bending_stress = -E / (L**2) * (6 * u0y + 2 * r0z * L - 6 * u1y + 4 * r1z * L) * hbottom[ielem]
+            top_bending_stress = E / (L**2) * curv_z * htop[ielem]
 
             # this is moment * h / I
-            front_bending_stress = -E / (L**2) * (-6 * u0z + 2 * r0y * L + 6 * u1z + 4 * r1y * L) * hfront[ielem]
+            bottom_bending_stress = -E / (L**2) * curv_z * hbottom[ielem]
 
             # this is moment * h / I
-            rear_bending_stress = E / (L**2) * (-6 * u0z + 2 * r0y * L + 6 * u1z + 4 * r1y * L) * hrear[ielem]
+            front_bending_stress = -E / (L**2) * curv_y * hfront[ielem]
+
+            # this is moment * h / I
+            rear_bending_stress = E / (L**2) * curv_y * hrear[ielem]
 
             # shear due to bending (VQ/It) note: the I used to get V cancels the other I
             vertical_shear = (
